@@ -5,9 +5,10 @@ doc/standards/gophermap.txt; no code shared with pygopherd.handlers.gophermap.""
 from __future__ import annotations
 
 import os
+import shutil
 import typing
 
-from vf import common, crawl, driver, reqs, validate
+from vf import parsers, common, crawl, driver, reqs, validate
 from vf.checks import c06
 from vf.common import Check, Scratch
 from vf.trees import Tree
@@ -174,6 +175,37 @@ def run_case(chk: Check, sc: Scratch, idx: int) -> None:
                 chk.witness("C09/protocols-disagree:%s" % reqs.VIEWS[view][0],
                             dict(sample, view=view, index=i, reference=a[i:i + 2], this=b[i:i + 2], n_ref=len(a), n_this=len(b)))
                 return
+        # the same tree packed into an archive: a gophermap inside it renders the same, under the archive's selector
+        if dpath and idx % 2 == 0:
+            zroot = sc.sub("z%d" % idx)
+            Tree().file("packed.zip", t.to_zip()).materialize(zroot)
+            zsite = driver.Site(zroot, handlers=driver.HANDLERS_FULL,
+                                overrides={("pygopherd", "abstract_entries"): "never", ("pygopherd", "abstract_headers"): "off"})
+            zsite.server.server_port = PORT
+            try:
+                zsel = b"/packed.zip" + sel
+                zwant = gophermap_ref(text, zsel)
+                zreq, _ = reqs.render("gopher", zsel)
+                zresp = zsite.request(zreq)
+                zv = validate.validate(zresp, zreq)
+                zgot = []
+                if zv.ok and zv.klass in ("menu", "any"):
+                    try:
+                        for d in parsers.parse_gopher_menu(zresp.data):
+                            zgot.append(("i", d["name"], None, None, None) if d["type"] == "i" else
+                                        (d["type"], d["name"], d["selector"], d["host"], d["port"]))
+                    except parsers.Malformed:
+                        zgot = None
+                if zgot != zwant:
+                    chk.witness("C09/gophermap-inside-archive-not-rendered", dict(sample, archive_selector=zsel, got=(zgot or [])[:3],
+                                                                                   want=zwant[:3], reply=zresp.data[:300], log=zresp.log[:2]))
+                    return
+                chk.count("gophermaps_inside_archives_compared")
+            finally:
+                zsite.close()
+                site.activate()
+                site.server.server_port = PORT
+                shutil.rmtree(zroot, ignore_errors=True)
         # the map is edited in place (same file, directory untouched): the next listing must follow it
         text2 = gen_map(chk.subrng("case2", idx), existing, allow_relative=not as_file)
         mpath = os.path.join(os.fsencode(root), pre + (b"menu.gophermap" if as_file else b"gophermap"))
